@@ -116,6 +116,7 @@ class RecSolver(Solver):
     def __init__(self, problem, params, record_callbacks=True):
         super().__init__(problem, params)
         self.trials = []
+        self.final_iterate = None
         self.cb = []  # (iterate, next_iterate, accept, solver.rho at callback time)
         if record_callbacks:
             self.callbacks.register(CallbackType.ComputedStep, self._on_step)
@@ -127,6 +128,12 @@ class RecSolver(Solver):
         res = super()._compute_step(controller, iterate, rho, dt, display, timer)
         self.trials.append(Trial(iterate, rho, dt, res, display))
         return res
+
+    def print_result(self, **kw):
+        # called once at the end of solve() with the iterate the result is built from
+        self.final_iterate = kw["iterate"]
+        self.final_info = {k: kw[k] for k in ("rho_init", "rho_final", "num_penalty_changes", "accepted_steps", "iterations")}
+        return super().print_result(**kw)
 
 
 class VirtualClock:
@@ -300,7 +307,10 @@ def outcome_of(rec):
         return rec.result.status.name
     e = rec.exc
     if e["deliberate"]:
-        return "deliberate:" + e["msg"][:22]
+        for p in DELIBERATE:
+            if e["msg"].startswith(p):
+                return "deliberate:" + p
+        return "deliberate:" + e["cls"]
     return "crash:" + e["cls"]
 
 
